@@ -26,27 +26,27 @@ non-tree edge, whose recorded weight is its true weight -/
 theorem c14_cand_sound (g : Graph) (hs : g.simpleB = true) (hp : g.positiveB = true) (t : SPTree) (i : Nat)
     (hc : checkSPT g t = true) (hf : checkFirst g t = true)
     (c : Cand) (hmem : c ∈ createCandidates g t i (List.range g.m)) :
-    ∃ Z, unfoldCand g t c = some Z ∧ EvenSet g Z ∧ c.edge ∈ Z ∧ wt g Z = c.weight := by
-  sorry
+    ∃ Z, unfoldCand g t c = some Z ∧ EvenSet g Z ∧ c.edge ∈ Z ∧ wt g Z = c.weight :=
+  TreesL.cand_sound g hs hp t i hc hf c hmem
 
 /-- the parity label of the look-up is the product of the unfolded cycle with the support vector -/
 theorem c14_parity_label (g : Graph) (hs : g.simpleB = true) (hp : g.positiveB = true) (t : SPTree) (i : Nat)
     (hc : checkSPT g t = true) (hf : checkFirst g t = true)
     (c : Cand) (hmem : c ∈ createCandidates g t i (List.range g.m)) (S : List Nat) (hS : StrictSorted S)
     (Z : List Nat) (hZ : unfoldCand g t c = some Z) :
-    candOdd g t S c = dotPar Z S := by
-  sorry
+    candOdd g t S c = dotPar Z S :=
+  TreesL.parity_label g hs hp t i hc hf c hmem S hS Z hZ
 
 /-- the isometric collection is a sub-collection of Horton's -/
-theorem c14_iso_subset (g : Graph) : ∀ c ∈ (isoCands g).2, c ∈ (hortonCands g).2 := by
-  sorry
+theorem c14_iso_subset (g : Graph) : ∀ c ∈ (isoCands g).2, c ∈ (hortonCands g).2 :=
+  TreesL.isoCands_subset g
 
 /-- the FVS collection is Horton's collection restricted to the trees rooted at the feedback vertices
 (tree `i` of the FVS builder is the tree of vertex `fvs[i]`) -/
 theorem c14_fvs_subset (g : Graph) (fvs : List Nat) (hf : ∀ v ∈ fvs, v < g.n) :
     ∀ c ∈ (fvsCands g fvs).2, ∃ v, fvs[c.tree]? = some v ∧
-      { tree := v, edge := c.edge, weight := c.weight : Cand } ∈ (hortonCands g).2 := by
-  sorry
+      { tree := v, edge := c.edge, weight := c.weight : Cand } ∈ (hortonCands g).2 :=
+  TreesL.fvsCands_subset g fvs hf
 
 /-- sufficiency transfers: a run whose phases minimise over a collection containing a spanning family `L`
 weighs at most as much as `L` (in particular: as much as a minimum cycle basis inside the collection) -/
